@@ -32,6 +32,60 @@ GEN_SPEC = [("true_positive_rate", ["difference", "ratio"]), ("true_negative_rat
             ("f1_score", ["group_min"]), ("log_loss", ["group_max"])]
 
 
+# sha256 of lean/FairModel/Generated/FairnessSpec.lean as lifted from the pinned tree (rule: see c01.PINNED_FRAMESRC_SHA256)
+PINNED_FAIRNESSSPEC_SHA256 = "4770219af5ca963f54e7762930824705e3e9b8ec3bcc967f9f3e15b4e9e2505c"
+_SPEC_TIE = {}
+
+
+def lifted_changed():
+    """a generated file the C03 model is computed with differs from the pinned tree's lift (then a model-vs-oracle
+    disagreement is a broken tie, not a bug of this machinery: DESIGN 3a)"""
+    from . import c01 as c01mod
+    from . import c02 as c02mod
+    return c01mod._generated_changed("FairnessSpec.lean", PINNED_FAIRNESSSPEC_SHA256) or c02mod.populate_changed()
+
+
+def lifted_metrics_spec():
+    """`metricsSpec` of Generated/FairnessSpec.lean (lifted METRICS_SPEC of _generated_metrics.py) as a Python list;
+    the Lean list-of-pairs literal is also a Python literal"""
+    import ast
+    import os
+    import re
+    from .. import leanrun
+    path = os.path.join(leanrun.LEAN, "FairModel", "Generated", "FairnessSpec.lean")
+    txt = open(path).read()
+    m = re.search(r"def metricsSpec : List \(String × List String\) :=\s*\n\s*(\[.*\])\s*\n", txt)
+    if m is None:
+        raise ValueError("metricsSpec not found in Generated/FairnessSpec.lean")
+    return [(a, list(b)) for a, b in ast.literal_eval(m.group(1))]
+
+
+def gen_spec_tie():
+    """GEN_SPEC (the functions this check calls and its oracle evaluates) must be the LIFTED METRICS_SPEC: on the pinned
+    tree a mismatch is a bug of this file (harness error); after a source edit that changed the generated file it is a
+    broken tie (the family of generated functions changed; reported as a correspondence problem)"""
+    if "p" not in _SPEC_TIE:
+        try:
+            lifted = lifted_metrics_spec()
+            err = None
+        except Exception as e:  # noqa: BLE001
+            lifted, err = None, repr(e)
+        mine = [(a, list(b)) for a, b in GEN_SPEC]
+        if err is not None:
+            _SPEC_TIE["p"] = Problem("harness", f"cannot read the lifted METRICS_SPEC: {err}")
+        elif lifted != mine:
+            diff = [x for x in lifted if x not in mine] + [("missing", x) for x in mine if x not in lifted]
+            msg = f"GEN_SPEC of props/c03.py differs from the lifted METRICS_SPEC (Generated/FairnessSpec.lean): {diff[:4]}"
+            from . import c01 as c01mod
+            if c01mod._generated_changed("FairnessSpec.lean", PINNED_FAIRNESSSPEC_SHA256):
+                _SPEC_TIE["p"] = Problem("correspondence", msg, "C03.gen_spec_tie")
+            else:
+                _SPEC_TIE["p"] = Problem("harness", msg)
+        else:
+            _SPEC_TIE["p"] = None
+    return _SPEC_TIE["p"]
+
+
 def all_combos():
     """every (function, method, agg) this check can call"""
     out = []
@@ -143,7 +197,12 @@ class CHECK(Check):
                  "= Frame+Aggregate composition read from tables LIFTED from _fairness_metrics.py/_generated_metrics.py/"
                  "_make_derived_metric.py; compiled-driver correspondence with the public fairlearn.metrics functions; the argument "
                  "plumbing of _DerivedMetric.__init__/__call__ (validation steps, routing chain of **other_params, default "
-                 "sample_param_names, the __name__ read) lifted into Generated/DerivedSpec.lean and modelled in Model/Derived.lean")
+                 "sample_param_names, the __name__ read) lifted into Generated/DerivedSpec.lean and modelled in Model/Derived.lean; "
+                 "the MetricFrame accessor call of every function (Fairness.applyAgg) is computed WITH the lifted result cache "
+                 "(Generated/PopulateSrc.lean through Model/AggregateCache.lean: accessor defaults, cache slot, the (method, errors) "
+                 "the slot was computed with, the lifted _extract_result) and proved equal to the hard-coded call "
+                 "(applyAgg_lifted_eq_model, run_lifted_eq_model, src_accessor_calls); GEN_SPEC of this file is compared with the "
+                 "lifted METRICS_SPEC on every run")
     level_text = ("Theorems (all datasets, any group structure incl. single-member groups and empty denominators, any positive "
                   "weights): selection_rate/TPR/FPR cells equal the direct weighted ratios (TPR/FPR := 0 on an empty "
                   "denominator); the values the aggregates see are exactly {rate(g) : g observed group} and overall = rate(all "
@@ -523,6 +582,9 @@ class CHECK(Check):
         if "crash" in o:
             return [Problem("harness", f"impl adapter crashed: {o}")]
         probs = []
+        tie = gen_spec_tie()
+        if tie is not None:
+            probs.append(tie)
         if case.get("dm"):
             probs += self.judge_dm(case, o, None if mo is None else mo[len(case["combos"])])
         for j, ((fn, meth, agg), got) in enumerate(zip(case["combos"], o["results"])):
@@ -577,7 +639,10 @@ class CHECK(Check):
                 else:
                     m_ok = (mv == want)
                 if not m_ok and ok:
-                    probs.append(Problem("harness", f"{label}: model {m} vs oracle {want}"))
+                    if lifted_changed():
+                        probs.append(Problem("correspondence", f"{label}: model over the EDITED lifted text {m} vs oracle {want}", "C03.lifted_model"))
+                    else:
+                        probs.append(Problem("harness", f"{label}: model {m} vs oracle {want}"))
                 # impl vs model
                 if ok and got[0] == "val" and mv != "raised" and not mc.same(got[1], mv, TOL):
                     probs.append(Problem("correspondence", f"{label}: impl {got[1]} vs model {m}", "C03.model"))
